@@ -209,6 +209,9 @@ def expected (rows : Rows) (argv : List String) : Option String :=
       let m := maxCharSite 1 ig iN (columnAt rows j)
       toString j ++ " " ++ stringOfBytes [m.1] ++ " " ++ toString m.2.1 ++ "|"))
   | ["stats", "nseq"] => some ("rc=0 out=" ++ toString rows.length ++ "|")
+  | ["stats", "nalign"] =>
+    -- a FASTA input holds one alignment (an input that is no alignment: a failing status after the count is printed)
+    if rows.isEmpty || (addAllStop (newAlign 1) rows).2 then none else some "rc=0 out=1|"
   | ["stats", "length"] => if L < 0 then none else some ("rc=0 out=" ++ toString L ++ "|")
   | ["stats", "taxa"] => some ("rc=0 out=" ++ String.join (rows.zipIdx.map fun (r, i) => toString i ++ " " ++ r.1 ++ "|"))
   | ["stats", "gaps"] => some ("rc=0 out=" ++ String.join (rows.map fun r => r.1 ++ " " ++ toString (r.2.count GAP) ++ "|"))
@@ -591,6 +594,49 @@ def expectedF (rows : Rows) (files : List (String × String)) (argv : List Strin
       | _ => none
     some (okF (pairs (rename m (bagOf rows))) "")
     | _ => none
+  | "replace" :: fl => do
+    -- cmd/replace.go with `-f <file>`: one line `name<TAB>site<TAB>character…` per replacement (lines starting with `#`
+    -- are skipped; the first byte of the third column is the character; further columns are ignored), applied in
+    -- order through `ReplaceChar`; `--old` / `--new` are not needed.  A line with fewer than three columns, a site
+    -- that is no integer, a site outside the alignment, a name that no row has: a failing status.  (An EMPTY third
+    -- column makes the command panic - index out of range in `readreplacefile`: the generator never writes one.)
+    let pf ← match fl with
+      | ["-f", f] => some f
+      | ["--posfile", f] => some f
+      | _ => none
+    if pf == "none" || pf == "stdin" || pf == "-" || pf.endsWith ".gz" || rows.isEmpty then none
+    if (← effective "replaceCmd" "output") != "stdout" || (← effective "replaceCmd" "unaligned") != "false" then none
+    match files.find? (·.1 == pf) with
+    | none => some badF
+    | some f =>
+      let ls := f.2.splitOn "|"
+      let ls := (if ls.getLast? == some "" then ls.dropLast else ls).filter fun l => !l.startsWith "#"
+      if ls.any (fun l => l.contains '\r') then none else
+      let parsed : Option (List (Option (String × Int × Byte))) := ls.mapM fun l =>
+        match l.splitOn "~" with
+        | nm :: st :: ch :: _ =>
+          if st.startsWith "+" || st.contains '_' then none else
+          (match ch.toList.head?, parseInt? st with
+           | none, _ => none                     -- the panic
+           | some c, some site => if c.toNat < 128 then some (some (nm, site, c.toNat.toUInt8)) else none
+           | some _, none => some none)
+        | _ => some none
+      match parsed with
+      | none => none
+      | some reps =>
+        -- the whole file is read before anything is replaced
+        if reps.any Option.isNone then some badF else
+        let step (acc : Option (Option Bag)) (r : String × Int × Byte) : Option (Option Bag) :=
+          match acc with
+          | some (some b) => (match replaceChar r.1 r.2.1 r.2.2 b with
+              | some (b', false) => some (some b')
+              | some (_, true) => some none
+              | none => none)
+          | other => other
+        match (reps.filterMap id).foldl step (some (some (bagOf rows))) with
+        | none => none
+        | some none => some badF
+        | some (some b) => some (okF (pairs b) "")
   | "subsites" :: fl => do
     match ← subsitesExpected rows files fl with
     | some r => some (okF r "")
